@@ -286,33 +286,60 @@ theorem c07_cached_verdict_identical (cfg : Cfg) (H : Hashes) (ops : List Op) (t
       o.op = .run p zr yr ∧ o'.op = .run p' zr' yr' ∧ H.md5 p'.id = H.md5 p.id ∧
       o'.out.result = some r' ∧ r'.cached = false ∧
       r.success = r'.success ∧ r.action = r'.action ∧ r.blocked = r'.blocked ∧ r.token = r'.token := by
-  -- a reply with the cached flag set is a cache hit
-  have hkind : o.out.kind = .cacheHit := by
-    have key := exec_forall cfg H (fun _ => True)
-      (fun o => ∀ r, o.out.result = some r → r.cached = true → o.out.kind = .cacheHit) ?_ ops init trivial
-    · exact key.2 o (by rw [hsplit]; simp) r hr hc
-    · intro s op _
-      refine ⟨trivial, ?_⟩
-      cases op with
-      | run p zr yr =>
-        simp only [step]
-        intro r hr hc
-        rcases run_out cfg H s p zr yr with h | h | ⟨_, e, _, _, h⟩ | ⟨_, h⟩
-        · rw [h] at hr; simp [circuitOpenResult] at hr; subst hr; simp at hc
-        · rw [h] at hr
-          have := (consultOut_kind cfg H p zr yr).2.2 r hr
-          rw [this] at hc; cases hc
-        · rw [h]
-        · rw [h] at hr; simp at hr
-      | adv d => intro r hr; simp [step] at hr
-      | resetcb => intro r hr; simp [step] at hr
-      | clearcache => intro r hr; simp [step] at hr
+  have hkind : o.out.kind = .cacheHit :=
+    exec_cached_is_hit cfg H ops init o (by rw [hsplit]; simp) r hr hc
   obtain ⟨o', ho', p, p', zr, yr, zr', yr', r', ev, hop, hop', hmd, hout', hc', hres⟩ :=
     exec_originals cfg H ops init [] (by intro e he; simp [init] at he) tr1 tr2 o hsplit hkind
   refine ⟨o', by simpa using ho', p, p', zr, yr, zr', yr', r', hop, hop', hmd, by rw [hout'], hc', ?_⟩
   rw [hr] at hres
   cases hres
   exact ⟨rfl, rfl, rfl, rfl⟩
+
+/-- The statement over histories in full: every reply that is not blocked — fresh or served from the cache —
+    traces back to a request of the history (the request itself, or a strictly earlier one whose prompt has the
+    same cache key) at which both agents actually answered, with verdicts that satisfy the configured gate logic;
+    the reply is a SUCCESS and its token is the one the gate built for those verdicts. -/
+theorem c07_unblocked_reply_traces_to_verdicts (cfg : Cfg) (H : Hashes) (ops : List Op) (tr1 tr2 : List Obs)
+    (o : Obs) (r : Result) (hsplit : (exec cfg H init ops).2 = tr1 ++ o :: tr2)
+    (hr : o.out.result = some r) (hb : r.blocked = false) :
+    ∃ o' ∈ tr1 ++ [o], ∃ (p : Prompt) (zr yr : Resp) (p' : Prompt) (z y : Cls),
+      o.op = .run p zr yr ∧ o'.op = .run p' (.ret z) (.ret y) ∧ H.md5 p'.id = H.md5 p.id ∧
+      criterion cfg.gate z y = true ∧ r.success = true ∧ r.action = .success ∧
+      r.token = (gateResult H cfg.gate p' z y).token := by
+  have hmem : ∀ x ∈ tr1 ++ [o], x ∈ (exec cfg H init ops).2 := by
+    intro x hx; rw [hsplit]
+    rcases List.mem_append.mp hx with h | h
+    · exact List.mem_append_left _ h
+    · simp at h; subst h; simp
+  have fromGate : ∀ (q : Prompt) (z y : Cls), (gateResult H cfg.gate q z y).blocked = false →
+      criterion cfg.gate z y = true ∧ (gateResult H cfg.gate q z y).success = true ∧
+      (gateResult H cfg.gate q z y).action = .success := by
+    intro q z y h
+    have hb' : (applyGate cfg.gate z y).blocked = false := by simpa [gateResult] using h
+    have hs := (c07_gate_result_shape cfg.gate z y).1 hb'
+    exact ⟨(c07_gate_sound cfg.gate z y).mp hb', by simpa [gateResult] using hs.1, by simpa [gateResult] using hs.2⟩
+  cases hc : r.cached
+  · -- answered by the agents on this very request
+    have ho := exec_gated cfg H ops init o (hmem o (by simp))
+    obtain ⟨ev, hout⟩ := ho.2 r hr hc hb
+    obtain ⟨p, z, y, hop, hres⟩ := ho.1 ev r hout
+    subst hres
+    have := fromGate p z y hb
+    exact ⟨o, by simp, p, .ret z, .ret y, p, z, y, hop, hop, rfl, this.1, this.2.1, this.2.2, rfl⟩
+  · -- served from the cache: go to the original
+    have hkind : o.out.kind = .cacheHit :=
+      exec_cached_is_hit cfg H ops init o (hmem o (by simp)) r hr hc
+    obtain ⟨o', ho', p, p', zr, yr, zr', yr', r', ev, hop, hop', hmd, hout', _, hres⟩ :=
+      exec_originals cfg H ops init [] (by intro e he; simp [init] at he) tr1 tr2 o hsplit hkind
+    have ho'1 : o' ∈ tr1 := by simpa using ho'
+    obtain ⟨p'', z, y, hop'', hres'⟩ := (exec_gated cfg H ops init o' (hmem o' (List.mem_append_left _ ho'1))).1 ev r' hout'
+    rw [hop'] at hop''
+    cases hop''
+    rw [hr] at hres
+    cases hres
+    subst hres'
+    have := fromGate p' z y (by simpa using hb)
+    exact ⟨o', List.mem_append_left _ ho'1, p, zr, yr, p', z, y, hop, hop', hmd, this.1, this.2.1, this.2.2, rfl⟩
 
 /-- The injectivity hypothesis of `c07_token_binds_request` is needed (and is the modelled assumption about the
     truncated md5 cache key): with a colliding key a reply for prompt 2 is served from prompt 1's entry and
